@@ -223,6 +223,14 @@ pub fn build_inputs(a: &Args, rng: &mut Rng) -> Vec<RunInput> {
                 v.push(RunInput { text: p, front: fr.into(), wrap: 0, cfg: "all".into(), dialect: i % 4, src: "prefix" });
             }
         }
+        // Typst function calls with arguments in every order, whole and as typed so far
+        for i in 0..a.num("typst-calls", 150) as usize {
+            let t = inputs::typst_calls(rng, &corpus[(start + i) % corpus.len()]);
+            v.push(RunInput { text: t.clone(), front: "typst".into(), wrap: (i % 4) as u8, cfg: "all".into(), dialect: i % 4, src: "typst-calls" });
+            if i % 3 == 0 {
+                for p in inputs::prefixes(&t, false) { v.push(RunInput { text: p, front: "typst".into(), wrap: 0, cfg: "curated".into(), dialect: i % 4, src: "typst-calls" }); }
+            }
+        }
         // editing families: every word of every sentence at the start of a document
         let nf = a.num("family-sentences", 200) as usize;
         let fstart = rng.below(corpus.len());
